@@ -161,6 +161,46 @@ def path_conditions(node: ast.AST, stop: ast.AST | None = None) -> list[tuple[as
     return out
 
 
+def _always_leaves(block: list[ast.stmt]) -> bool:
+    if not block:
+        return False
+    last = block[-1]
+    if isinstance(last, (ast.Return, ast.Raise, ast.Continue, ast.Break)):
+        return True
+    return isinstance(last, ast.If) and bool(last.orelse) and _always_leaves(last.body) and _always_leaves(last.orelse)
+
+
+def guarded_conditions(node: ast.AST, stop: ast.AST | None = None) -> list[tuple[ast.expr, bool]]:
+    """`path_conditions` plus the guard clauses passed on the way: an earlier `if c: return/raise/continue/break` (no else) in a block
+    that contains `node` means `c` did not hold where `node` runs.  A guard inside a loop body only counts for nodes of the same
+    iteration (the same block), which is what sibling position gives."""
+    out = []
+    child = node
+    for a in ancestors(node):
+        if a is stop or isinstance(a, (ast.FunctionDef, ast.AsyncFunctionDef, ast.Lambda)):
+            blocks = [getattr(a, "body", [])] if not (a is stop) else []
+        else:
+            blocks = [getattr(a, f, None) for f in ("body", "orelse", "finalbody")]
+        for blk in blocks:
+            if isinstance(blk, list) and any(child is s_ for s_ in blk):
+                for s_ in blk:
+                    if s_ is child:
+                        break
+                    if isinstance(s_, ast.If) and not s_.orelse and _always_leaves(s_.body):
+                        out.append((s_.test, False))
+                    elif isinstance(s_, ast.If) and s_.orelse and _always_leaves(s_.orelse) and not _always_leaves(s_.body):
+                        out.append((s_.test, True))
+        if a is stop or isinstance(a, (ast.FunctionDef, ast.AsyncFunctionDef, ast.Lambda)):
+            break
+        if isinstance(a, ast.If):
+            in_body = any(child is s_ for s_ in a.body)
+            in_else = any(child is s_ for s_ in a.orelse)
+            if in_body or in_else:
+                out.append((a.test, in_body))
+        child = a
+    return out
+
+
 def extra_conditions(node: ast.AST, main: ast.expr | None, allow=None, stop: ast.AST | None = None) -> list[str]:
     """Path conditions of `node` other than `main` holding (and other than those `allow(test, holds)` accepts), rendered
     for a report.  Used by "sole guard" rules: an action that must happen exactly under one condition may not sit under a
